@@ -20,12 +20,19 @@ package memverif
 import (
 	"encoding/json"
 	"errors"
+<<<<<<< HEAD
 	"fmt"
+=======
+>>>>>>> c16
 	"sort"
 	"strconv"
 	"sync"
 	"time"
 
+<<<<<<< HEAD
+=======
+	dbif "github.com/tinode/chat/server/db"
+>>>>>>> c16
 	"github.com/tinode/chat/server/store"
 	t "github.com/tinode/chat/server/store/types"
 )
@@ -685,8 +692,20 @@ func ResetCallLog() {
 	a.calls = nil
 }
 
+<<<<<<< HEAD
 func init() {
 	store.RegisterAdapter(theAdapter)
 }
 
 var _ = fmt.Sprint
+=======
+// Instance returns the adapter object registered with the store, for harness
+// code which wants to call adapter methods directly.
+func Instance() dbif.Adapter {
+	return theAdapter
+}
+
+func init() {
+	store.RegisterAdapter(theAdapter)
+}
+>>>>>>> c16
